@@ -297,6 +297,39 @@ def run(ctx):
             cur["make"] = lambda data=data: data
             check("plain-return", True, ("ret", repr(data)),
                   {"value": repr(data)})
+        # ---- PartialResponse: the handler did the cutting itself; the
+        # data it hands in is the body, whatever Content-Range it declares
+        from poorwsgi.response import PartialResponse
+        for data in (b"0123456789", "\u010de\u0161tina", b""):
+            size = len(enc(data))
+            for rng_, units, full in (([(2, 5)], "bytes", size),
+                                      ([(2, 5)], "bytes", "*"),
+                                      ([(0, size - 1)], "bytes", size),
+                                      ([(1, 3)], "blocks", 10),
+                                      ([(2, 5)], "bytes", size + 7),
+                                      ([(None, 3)], "bytes", size),
+                                      ([(4, None)], "bytes", size),
+                                      (None, None, None)):
+                for writes in ((), (b"+tail",), ("\u20ac", b"")):
+                    def make(data=data, rng_=rng_, units=units, full=full,
+                             writes=writes):
+                        res = PartialResponse(data)
+                        for piece in writes:
+                            res.write(piece)
+                        if rng_ is not None:
+                            total = full
+                            if writes and full == size:
+                                total = size + sum(len(enc(w))
+                                                   for w in writes)
+                            res.make_range(rng_, units, total)
+                        return res
+                    cur["make"] = make
+                    check("partial-response", True,
+                          ("PartialResponse", repr(data), repr(rng_), units,
+                           repr(full), repr(writes)),
+                          {"data": repr(data), "range": repr(rng_),
+                           "units": units, "full": repr(full),
+                           "writes": repr(writes)})
         # ---- equal header collections on answers of different sizes
         for hdrs in ((("X-Same", "1"),), [("X-Same", "1")], {"X-Same": "1"},
                      (("X-Same", "1"), ("Cache-Control", "no-cache"))):
